@@ -342,7 +342,14 @@ pub fn op_image(
         // a single operation
         0 => Diagram::singleton(t.choice(al.el) as u32, src, tgt),
         // arbitrary small diagram (composite, non-monogamous, possibly without edges)
-        1 => diagram_with_boundary(t, &small_sizes(), al, src, tgt, ctx),
+        1 => {
+            let sz = if ctx.tier == crate::engine::Tier::Thorough {
+                Sizes { nodes: 4, edges: 3, arity: 3, ..small_sizes() }
+            } else {
+                small_sizes()
+            };
+            diagram_with_boundary(t, &sz, al, src, tgt, ctx)
+        }
         // spider only
         _ => {
             let mut d = Diagram::empty();
